@@ -170,15 +170,14 @@ def g_merge(rng):
     def thunk():
         from cubed.core.ops import merge_chunks
         x = arr(shape, chunks)
-        merge_chunks(x, tuple(target))
-        return "ok"
+        return merge_chunks(x, tuple(target))
     return "merge|%s|%s" % (ls(chunks), ls(target)), thunk, {"shape": shape, "chunks": chunks, "target": target}, True
 
 
 def g_squeeze(rng):
     nd = rng.randint(1, 4)
     shape = [rng.choice([1, 1, 2, 3]) for _ in range(nd)]
-    chunks = [1 for _ in shape]
+    chunks = [rng.randint(1, d) for d in shape]
     k = rng.randint(1, 2)
     axes = rng.sample(range(-nd - 1, nd + 1), k)
     # NumPy rejects repeated axes: keep them distinct modulo ndim
@@ -188,8 +187,8 @@ def g_squeeze(rng):
 
     def thunk():
         import cubed.array_api as xp
-        xp.squeeze(arr(shape, chunks), axis=axis)
-        return "ok"
+        return xp.squeeze(arr(shape, chunks), axis=axis)
+    thunk.np = lambda: __import__("numpy").squeeze(__import__("numpy").zeros(shape), axis=axis)
     return "squeeze|%s|%s" % (ls(shape), ls(axes)), thunk, {"shape": shape, "axis": list(axes)}, True
 
 
@@ -209,8 +208,7 @@ def g_repeat(rng):
 
     def thunk():
         import cubed.array_api as xp
-        xp.repeat(arr(shape, chunks), reps, axis=ax)
-        return "ok"
+        return xp.repeat(arr(shape, chunks), reps, axis=ax)
     return "repeat|%s|%s|%d" % (ls(shape), rs, ax), thunk, {"shape": shape, "chunks": chunks, "repeats": str(reps), "axis": ax}, True
 
 
@@ -254,8 +252,8 @@ def g_concat(rng):
 
     def thunk():
         import cubed.array_api as xp
-        xp.concat([arr(s, c) for s, c in zip(shapes, csz)], axis=ax)
-        return "ok"
+        return xp.concat([arr(s, c) for s, c in zip(shapes, csz)], axis=ax)
+    thunk.np = lambda: __import__("numpy").concatenate([__import__("numpy").zeros(s_) for s_ in shapes], axis=ax)
     return "concat|%d|%s|%s" % (ax, lls(shapes), lls(csz)), thunk, {"shapes": shapes, "chunks": csz, "axis": ax}, True
 
 
@@ -267,8 +265,7 @@ def g_stack(rng):
 
     def thunk():
         import cubed.array_api as xp
-        xp.stack([arr(s, c) for s, c in zip(shapes, chunkss)], axis=ax)
-        return "ok"
+        return xp.stack([arr(s, c) for s, c in zip(shapes, chunkss)], axis=ax)
     return "stack|%d|%s|%s" % (ax, lls(shapes), lls(chunkss)), thunk, {"shapes": shapes, "chunks": chunkss, "axis": ax}, True
 
 
@@ -368,8 +365,8 @@ def g_reduce(rng):
 
     def thunk():
         import cubed.array_api as xp
-        xp.sum(arr(shape, chunks), axis=axis, split_every=se)
-        return "ok"
+        return xp.sum(arr(shape, chunks), axis=axis, split_every=se)
+    thunk.np = lambda: __import__("numpy").sum(__import__("numpy").zeros(shape), axis=axis)
     return ("reduce|%d|%s|%s" % (nd, "n" if axes is None else ls(axes), ses), thunk,
             {"shape": shape, "chunks": chunks, "axis": axes, "split_every": str(se)}, True)
 
@@ -389,8 +386,8 @@ def g_bcast(rng):
 
     def thunk():
         import cubed.array_api as xp
-        xp.broadcast_to(arr(xs, chunks), tuple(shape))
-        return "ok"
+        return xp.broadcast_to(arr(xs, chunks), tuple(shape))
+    thunk.np = lambda: __import__("numpy").broadcast_to(__import__("numpy").zeros(xs), tuple(shape))
     return "bcast|%s|%s" % (ls(xs), ls(shape)), thunk, {"xshape": xs, "chunks": chunks, "shape": shape}, True
 
 
@@ -418,8 +415,8 @@ def g_roll(rng):
 
     def thunk():
         import cubed.array_api as xp
-        xp.roll(arr(shape, chunks), shift, axis=axis)
-        return "ok"
+        return xp.roll(arr(shape, chunks), shift, axis=axis)
+    thunk.np = lambda: __import__("numpy").roll(__import__("numpy").zeros(shape), shift, axis=axis)
     return ("roll|%d|%s|%s" % (nd, ss, "n" if axes is None else ls(axes)), thunk,
             {"shape": shape, "chunks": chunks, "shift": str(shift), "axis": axes}, True)
 
@@ -439,8 +436,8 @@ def g_permute(rng):
 
     def thunk():
         import cubed.array_api as xp
-        xp.permute_dims(arr(shape, chunks), tuple(axes))
-        return "ok"
+        return xp.permute_dims(arr(shape, chunks), tuple(axes))
+    thunk.np = lambda: __import__("numpy").transpose(__import__("numpy").zeros(shape), tuple(axes))
     return "permute|%d|%s" % (nd, ls(axes)), thunk, {"shape": shape, "axes": axes}, True
 
 
@@ -472,12 +469,23 @@ def g_mapblocks(rng):
     elif r < 0.8:
         drop = [rng.randint(-ndmax, -1)]
     nbs = [[nblocks(d, c) for d, c in zip(s, cc)] for s, cc in zip(shapes, chunkss)]
+    # new_axis / chunks variants (ints as chunk entries: one block per new axis, existing axes keep their block count)
+    nd_out = ndmax - len({d % ndmax for d in drop if -ndmax <= d < ndmax})
+    new_axis, out_chunks = None, None
+    r2 = rng.random()
+    if r2 < 0.2:
+        new_axis = [rng.randint(0, nd_out + 1)]
+    elif r2 < 0.3:
+        new_axis = sorted(rng.sample(range(nd_out + 2), 2))
+    if rng.random() < 0.25:
+        k = nd_out + (len(new_axis) if new_axis else 0) + rng.choice([0, 0, 0, 1, -1, 2])
+        out_chunks = tuple(rng.randint(1, 3) for _ in range(max(0, k)))
 
     def thunk():
         import cubed
         from cubed.primitive.blockwise import ChunkKey, FunctionArgs
         args = [arr(s, c) for s, c in zip(shapes, chunkss)]
-        out = cubed.map_blocks(_mb_f, *args, dtype="int64", drop_axis=drop)
+        out = cubed.map_blocks(_mb_f, *args, dtype="int64", drop_axis=drop, new_axis=new_axis, chunks=out_chunks)
         f = key_fn(out)
         try:
             fa = f(ChunkKey("out", (0,) * out.ndim))
@@ -489,8 +497,10 @@ def g_mapblocks(rng):
         except Exception:  # noqa: BLE001
             return "malformed"
         return "ok"
-    return ("mapblocks|%s|%s|n|n" % (lls(nbs), ls(drop)), thunk,
-            {"shapes": shapes, "chunks": chunkss, "drop_axis": drop}, True)
+    return ("mapblocks|%s|%s|%s|%s" % (lls(nbs), ls(drop), "n" if new_axis is None else ls(new_axis),
+                                       "n" if out_chunks is None else str(len(out_chunks))), thunk,
+            {"shapes": shapes, "chunks": chunkss, "drop_axis": drop, "new_axis": new_axis,
+             "out_chunks": None if out_chunks is None else list(out_chunks)}, True)
 
 
 def g_index(rng):
@@ -551,8 +561,8 @@ def g_index(rng):
 
     def thunk():
         x = arr(shape, chunks)
-        x[k]
-        return "ok"
+        return x[k]
+    thunk.np = lambda: __import__("numpy").zeros(shape)[k]
     return "index|%s|%s" % (ls(shape), ";".join(req) if req else "-"), thunk, {"shape": shape, "chunks": chunks, "key": req}, True
 
 
@@ -581,7 +591,7 @@ def corr_validate(ctx, n):
         fam = ctx.rng.choices(names, weights)[0]
         req, thunk, case, nontrivial = gens[fam](ctx.rng)
         o, r = outcome(thunk)
-        got = r if o == "ok" else o
+        got = (r if isinstance(r, str) else "ok") if o == "ok" else o
         reqs.append(req)
         exp.append(got)
         cases.append((fam, case))
@@ -795,7 +805,9 @@ def run_phases(build, config, executor="single"):
         with warnings.catch_warnings():
             warnings.simplefilter("ignore")
             outs = build()
-            outs = [o for o in (outs if isinstance(outs, (list, tuple)) else [outs])]
+            outs = [o for o in (outs if isinstance(outs, (list, tuple)) else [outs]) if hasattr(o, "_plan")]
+            if not outs:
+                return "done", None        # nothing lazy was returned (e.g. an eager store)
             phase = "plan"
             fp = cubed.plan(*outs, **config)
             fp.validate()
@@ -858,7 +870,9 @@ def failing_task(build, config):
     with warnings.catch_warnings():
         warnings.simplefilter("ignore")
         outs = build()
-        outs = [o for o in (outs if isinstance(outs, (list, tuple)) else [outs])]
+        outs = [o for o in (outs if isinstance(outs, (list, tuple)) else [outs]) if hasattr(o, "_plan")]
+        if not outs:
+            return None
         fp = cubed.plan(*outs, **config)
         dag = fp.dag
         for name, node in visit_nodes(dag):
@@ -1109,9 +1123,17 @@ def stream_cases(rng):
     else:
         yield "reduce", (lambda: getattr(xp, fn)(arr(shape, ch, "float64"), axis=axr, split_every=se)), {"op": fn, "shape": shape, "chunks": ch, "axis": axr, "split_every": str(se)}, {}
     # squeeze / concat / index edge cases built from the validate generators (whatever they raise must be an allowed type)
-    for g in (g_squeeze, g_concat, g_index, g_bcast, g_roll, g_permute):
+    for g in (g_squeeze, g_concat, g_index, g_bcast, g_roll, g_permute, g_merge, g_reduce):
         req, thunk, case, _ = g(rng)
-        yield "edge:" + req.split("|")[0], (lambda thunk=thunk: _as_arrays(thunk)), dict(case, request=req), {}
+        shadow = getattr(thunk, "np", None)
+        if shadow is not None:
+            try:
+                with warnings.catch_warnings():
+                    warnings.simplefilter("ignore")
+                    shadow()
+            except Exception:  # noqa: BLE001   NumPy rejects the request too: the property says nothing about it
+                continue
+        yield "edge:" + req.split("|")[0], thunk, dict(case, request=req), {}
     # map_blocks with a contracted index only in a later argument
     n0, n1 = rng.randint(1, 4), rng.randint(1, 4)
     ca = rng.randint(1, n0)
@@ -1126,15 +1148,6 @@ def stream_cases(rng):
         return cubed.map_blocks(lambda xb, yb: xb + yb.sum(axis=0), x, y, dtype="int64", drop_axis=0)
     yield "map_blocks", mb, {"op": "map_blocks", "args": [b2, a1] if first_2d else [a1, b2], "drop_axis": 0}, \
         {"family": "map_blocks_late_contraction", "first_has_contracted": first_2d, "later_has_contracted": not first_2d}
-
-
-class _Done:
-    """Marker for builds that are complete when the thunk returns (nothing to plan)."""
-
-
-def _as_arrays(thunk):
-    thunk()
-    return []
 
 
 def oracle_streams(ctx, n):
